@@ -84,8 +84,15 @@ def classify(c, impl, model=None):
     why = oracle(c, impl) or ""
     if " cnt" in why:
         return "CountAfterRecovery"
-    if "LOST" in why and model and "unl=true" in model and not shardprop.diffs(c, impl, model):
-        return "OpenWalFilePruned"
+    if "LOST" in why and model and not shardprop.diffs(c, impl, model):
+        lost = set(int(x) for x in re.search(r"LOST \[([0-9, ]*)\]", why).group(1).split(",") if x.strip())
+        ghost = set()
+        for ob in model.split(" | "):
+            mm = re.search(r"wlost=([0-9,]*)", ob)
+            if mm:
+                ghost |= set(int(x) for x in mm.group(1).split(",") if x)
+        if lost and lost <= ghost:
+            return "OpenWalFilePruned"
     return None
 
 
